@@ -253,6 +253,9 @@ func (w *Worker) solveRaw(assertions []*Term) (string, Model) {
 			os.WriteFile(fmt.Sprintf("%s/unknown_%d.smt2", dumpSlow, time.Now().UnixNano()), []byte(full+"; "+strings.Join(ans.lines, "\n; ")), 0644)
 		}
 	}
+	if dumpSlow != "" && atomic.LoadInt64(&st.Queries)%500 == 0 {
+		os.WriteFile(fmt.Sprintf("%s/q_%d_%s_%dms.smt2", dumpSlow, time.Now().UnixNano(), ans.res, d.Milliseconds()), []byte(full+getv), 0644)
+	}
 	if d > 5*time.Second && dumpSlow != "" {
 		os.WriteFile(fmt.Sprintf("%s/slow_%d.smt2", dumpSlow, time.Now().UnixNano()), []byte(full), 0644)
 	}
